@@ -229,6 +229,7 @@ class Ctx:
     # ---- accounting
     def case(self, key=None, sample=None, nontrivial=True):
         self.evaluations += 1
+        self.last_key = key
         if nontrivial and key is not None:
             self.nontrivial.add(key)
         if sample is not None and len(self.samples) < 6:
